@@ -40,6 +40,7 @@ type ACPlan struct {
 	DataLen   int             `json:"data_len"`
 	Data2Len  int             `json:"data2_len"`
 	ZeroBlock bool            `json:"zero_block,omitempty"` // the data contains an aligned block of zeros
+	TmpSame   bool            `json:"tmp_same,omitempty"`   // the leftover staging file holds exactly the data, unflushed
 	Ordered   bool            `json:"ordered,omitempty"`
 	MaxWrite  int             `json:"max_write,omitempty"`
 	Faults    []simunix.Fault `json:"faults,omitempty"`
@@ -66,6 +67,7 @@ func (c13) Gen(rng *simrt.Rand, tier string, run int) interface{} {
 	p.DataID, p.DataLen = 0xD1, acSizes[rng.Intn(len(acSizes))]
 	p.Data2Len = acSizes[rng.Intn(4)]
 	p.ZeroBlock = p.DataLen >= 4096 && rng.Chance(1, 3)
+	tmpSame := rng.Chance(1, 6)
 	prior := func() {
 		if rng.Chance(2, 3) {
 			p.OldID, p.OldLen = 0x01D, rng.Pick(0, 5, 100, 5000)
@@ -95,6 +97,9 @@ func (c13) Gen(rng *simrt.Rand, tier string, run int) interface{} {
 	case 0, 1:
 		p.Batch = "crash"
 		prior()
+		if tmpSame && p.DataLen > 0 {
+			p.TmpSame, p.TmpLen = true, -1
+		}
 		p.Ordered = rng.Chance(1, 2)
 		if rng.Chance(1, 2) {
 			p.MaxWrite = rng.Pick(1, 7, 1000, 4096, 32768)
@@ -255,6 +260,22 @@ func (c13) Shrink(pj json.RawMessage) []json.RawMessage {
 	return out
 }
 
+// acData is the data of the plan's call.
+func acData(p *ACPlan) []byte {
+	data := model.Chunk(p.DataID, p.DataLen)
+	if p.ZeroBlock && p.DataLen >= 4096 {
+		// an aligned all-zero block inside the data (sparse-file shortcuts)
+		off := 0
+		if p.DataLen >= 8192 {
+			off = 4096
+		}
+		for i := off; i < off+4096; i++ {
+			data[i] = 0
+		}
+	}
+	return data
+}
+
 // setupAC builds the prior state durably.
 func setupAC(k *simunix.Kernel, p *ACPlan) {
 	k.Mkdir("/d0")
@@ -271,10 +292,16 @@ func setupAC(k *simunix.Kernel, p *ACPlan) {
 		k.WriteFile("/"+p.Name+".tmp", model.Chunk(p.TmpID, p.TmpLen))
 		k.WriteFile("/"+p.Dir+"/"+p.Name+".tmp", model.Chunk(p.TmpID, p.TmpLen))
 	}
+
 	for _, o := range p.OldFiles {
 		k.WriteFile("/"+o.D+"/"+o.N, model.Chunk(o.ID, o.Len))
 	}
 	k.SyncAll()
+	if p.TmpSame {
+		// the leftover of an earlier call WITH THE SAME DATA that died after its
+		// write and before its fsync: the bytes are there, but only in the cache
+		k.WriteFileVolatile("/"+p.Name+".tmp", acData(p))
+	}
 }
 
 // readName reads dir/name through the API; absent=true if Open is refused.
@@ -386,17 +413,7 @@ func execAC(p *ACPlan, keepLog bool) acResult {
 	setupAC(k, p)
 	s := simrt.New(simrt.Config{DaemonsOK: true, Tape: simrt.Replay(nil, nil), KeepLog: keepLog, MaxSteps: 3000000})
 	simunix.Attach(s, k)
-	data := model.Chunk(p.DataID, p.DataLen)
-	if p.ZeroBlock && p.DataLen >= 4096 {
-		// an aligned all-zero block inside the data (sparse-file shortcuts)
-		off := 0
-		if p.DataLen >= 8192 {
-			off = 4096
-		}
-		for i := off; i < off+4096; i++ {
-			data[i] = 0
-		}
-	}
+	data := acData(p)
 	var old []byte
 	if p.OldLen >= 0 {
 		old = model.Chunk(p.OldID, p.OldLen)
